@@ -108,7 +108,7 @@ Qed.
 Definition bump_files (s : st) : st :=
   {| store := store s; next_id := next_id s; log := log s; steps := steps s;
      fail_at := fail_at s; htabs := htabs s; flags := flags s; files := files s;
-     nfiles := N.succ (nfiles s); mlog := mlog s |}.
+     nfiles := N.succ (nfiles s); mlog := mlog s; glog := glog s |}.
 
 (* evaluate-file: the contents evaluated as a string, in a state that differs *)
 (* only by the file-name table                                                *)
